@@ -8,10 +8,32 @@ package sim
 // content the directory has now. The model never trusts what gengo computed.
 type CacheModel struct {
 	Known map[string]map[string]map[string]string // package path -> hash -> files directly in the directory
+	// Done: the directory contents (at load time) for which the package's
+	// generation has completed in some run. A line of gengo.sum may only be
+	// trusted for a content that was really generated: a failed run must not
+	// "mark work as done".
+	Done map[string][]map[string]string
 }
 
 func NewCacheModel() *CacheModel {
-	return &CacheModel{Known: map[string]map[string]map[string]string{}}
+	return &CacheModel{Known: map[string]map[string]map[string]string{}, Done: map[string][]map[string]string{}}
+}
+
+// MarkDone records that package p was generated completely from content.
+func (c *CacheModel) MarkDone(p string, content map[string]string) {
+	if !c.IsDone(p, content) {
+		c.Done[p] = append(c.Done[p], content)
+	}
+}
+
+// IsDone reports whether p has been generated completely from exactly content.
+func (c *CacheModel) IsDone(p string, content map[string]string) bool {
+	for _, d := range c.Done[p] {
+		if sameFiles(d, content) {
+			return true
+		}
+	}
+	return false
 }
 
 func (c *CacheModel) Clone() *CacheModel {
@@ -21,6 +43,9 @@ func (c *CacheModel) Clone() *CacheModel {
 		for h, files := range hs {
 			n.Known[p][h] = files // contents are never mutated
 		}
+	}
+	for p, ds := range c.Done {
+		n.Done[p] = append([]map[string]string{}, ds...)
 	}
 	return n
 }
